@@ -4,7 +4,8 @@
    effect of the item. Emptiness of all registers after tear-down of explored
    histories is compared between model and implementation. *)
 From Coq Require Import List ZArith Bool.
-From EosV Require Import lib.AList model.World model.Engine model.Ops proofs.Misc_p proofs.Status_p.
+From EosV Require Import lib.AList model.World model.Engine model.Ops proofs.Misc_p proofs.Status_p
+     proofs.Frame_p proofs.Owner_p proofs.Cinv_p proofs.Runs_p.
 Import ListNotations.
 
 Theorem C11_unregister_undoes_register :
@@ -19,6 +20,33 @@ Theorem C11_unloading_stops_every_effect : forall w i it w' msgs,
   exists it', get_item w' i = Some it' /\ i_running it' = [].
 Proof. exact unloaded_msgs_clear_running. Qed.
 
+(* removal through the message-discipline layer, for every fuel: a removed item
+   that was held directly by a fit container ends unloaded, without container
+   reference and running nothing; every other item keeps its container
+   reference; no container, fleet, solar system or source is touched; the
+   running-set invariant and the ownership invariant survive *)
+Theorem C11_removed_item_is_inert : forall n s i,
+  RJ (fst s) -> w_err (fst (remove_item n s i)) = None ->
+  RJ (fst (remove_item n s i)) /\
+  (forall x, get_item (fst (remove_item n s i)) i = Some x -> direct x ->
+             i_loaded x = None /\ i_cont x = None /\ i_running x = []).
+Proof.
+  intros n s i R He. destruct (remove_RJ n s i R He) as (R' & P). split; [exact R'|].
+  intros x Hx D. destruct (P x Hx D) as (Hl & Hc). repeat split; auto.
+  destruct (proj1 R' i x (fun y => y) Hx D) as (C1 & _). now apply C1.
+Qed.
+Theorem C11_removal_touches_nothing_else : forall n s i,
+  J (fst s) ->
+  (forall j, fitcont (fst (remove_item (S n) s i)) j = if Nat.eqb j i then None else fitcont (fst s) j) /\
+  structure (fst (remove_item (S n) s i)) = structure (fst s).
+Proof.
+  intros n s i Js. split; [exact (proj1 (remove_item_ownership n s i Js))|apply S_remove_item].
+Qed.
+(* after the container forgot it, no container of any fit lists the item *)
+Theorem C11_removed_item_is_listed_nowhere : forall w i p,
+  CI w -> fitcont w i = None -> ~ In i (members w p).
+Proof. intros w i p (_ & M & _) H Hin. apply M in Hin. congruence. Qed.
+
 Example C11_nonvacuous :
   ks_rm_entry neqb Nat.eqb (ks_add_entry neqb Nat.eqb [(1%nat, [5%nat])] 2%nat 7%nat) 2%nat 7%nat
   = [(1%nat, [5%nat])].
@@ -26,3 +54,6 @@ Proof. reflexivity. Qed.
 
 Print Assumptions C11_unregister_undoes_register.
 Print Assumptions C11_unloading_stops_every_effect.
+Print Assumptions C11_removed_item_is_inert.
+Print Assumptions C11_removal_touches_nothing_else.
+Print Assumptions C11_removed_item_is_listed_nowhere.
